@@ -107,6 +107,7 @@ def serialize_compact(
     registry = construct_registry(algorithms, registry)
 
     registry.check_header(protected)
+    _check_encoded_payload(protected)
     obj = CompactSignature(protected, to_bytes(payload))
     alg: JWSAlgModel = registry.get_alg(protected["alg"])
     key: Key = guess_key(private_key, obj, True)
@@ -134,6 +135,7 @@ def validate_compact(
 
     headers = obj.headers()
     registry.check_header(headers)
+    _check_encoded_payload(obj.protected)
     key: Key = guess_key(public_key, obj)
     key.check_use("sig")
     alg: JWSAlgModel = registry.get_alg(headers["alg"])
@@ -229,8 +231,11 @@ def serialize_json(
 
     _payload = to_bytes(payload)
     if isinstance(members, list):
+        for member in members:
+            _check_encoded_payload(member.get("protected"))
         return sign_general_json(members, _payload, registry, find_key)
     else:
+        _check_encoded_payload(members.get("protected"))
         return sign_flattened_json(members, _payload, registry, find_key)
 
 
@@ -272,14 +277,26 @@ def deserialize_json(
 
     if "signatures" in value:
         general_obj = extract_general_json(value)
+        for _member in general_obj.members:
+            _check_encoded_payload(_member.protected)
         if not verify_general_json(general_obj, registry, find_key):
             raise BadSignatureError()
         return general_obj
     else:
         flattened_obj = extract_flattened_json(value)
+        _check_encoded_payload(flattened_obj.member.protected)
         if not verify_flattened_json(flattened_obj, registry, find_key):
             raise BadSignatureError()
         return flattened_obj
+
+
+def _check_encoded_payload(protected: Any) -> None:
+    # RFC 7797: a protected "b64": false changes the signing input and the
+    # payload representation.  The functions of this module always use the
+    # base64url-encoded payload, so they must not process such a header as if
+    # the parameter were not there (joserfc.rfc7797 implements it).
+    if isinstance(protected, dict) and protected.get("b64") is False:
+        raise ValueError('Unencoded payload ("b64": false) is not supported, use joserfc.rfc7797')
 
 
 DetachValue = TypeVar("DetachValue", str, Dict[str, Any])
